@@ -47,7 +47,7 @@ COMPONENTS = {
                   "file objects (SimFile)", "evaluation failures (EvalPoint)", "process / PYTHONHASHSEED (fresh interpreters)"],
     "stubbed": [],
 }
-EXPECTED_PROBES = ["identical-form-text-other-helper-in-pool", "eval-exactly-at-range-boundary", "switch-inside-write", "two-tasks-same-handle", "write-after-faulted-write", "excel-write-across-clock-jump",
+EXPECTED_PROBES = ["burst-of-evaluations-on-one-multi-range-function", "identical-form-text-other-helper-in-pool", "eval-exactly-at-range-boundary", "switch-inside-write", "two-tasks-same-handle", "write-after-faulted-write", "excel-write-across-clock-jump",
                    "backwards-clock-jump", "hashseed-comparison", "underspecified-eam-under-hashseeds", "shared-subform-different-args",
                    "same-form-name-different-formula-in-pool", "rebuild-same-model", "write-twice-same-handle", "eval-between-rows-of-own-write"]
 
@@ -289,6 +289,24 @@ def gen_scenario(seed, tier="quick"):
                 hmodel[h] = m
             elif r < 0.45 and mine:
                 ops.append({"op": "write", "h": rng.choice(mine)})
+            elif r < 0.52 and readable:
+                # a burst of evaluations of ONE function at its own interesting points, in arbitrary order:
+                # range boundaries (exactly / just either side), grid points, interior points
+                h = rng.choice(readable)
+                defs = function_definitions(models[hmodel[h]])
+                multi = sorted(l for l, d in defs.items() if _BOUNDARY.search(d))
+                labs = multi if (multi and rng.random() < 0.8) else sorted(defs)
+                if labs:
+                    fl = rng.choice(labs)
+                    what = rng.choice(["energy", "energy", "force"])
+                    for _ in range(rng.randint(3, 6)):
+                        op = {"op": "eval", "h": h, "fi": 0, "fl": fl, "what": what, "ri": rng.randrange(64),
+                              "off": rng.choice([0.0, 0.0, 0.5, 0.013, -0.25])}
+                        if rng.random() < 0.6:
+                            op["bi"] = rng.randrange(64)
+                            op["own"] = True
+                            op["eps"] = rng.choice([0.0, 0.0, 0.0, 1e-9, -1e-9, 0.05, -0.05])
+                        ops.append(op)
             elif r < 0.80 and readable:
                 h = rng.choice(readable)
                 op = {"op": "eval", "h": h, "fi": rng.randrange(64), "what": rng.choice(["energy", "energy", "force"]),
@@ -368,11 +386,43 @@ def range_boundaries(spec):
     return sorted(out)
 
 
+_LABEL_PREFIX = {"Pair": "pair", "EAM-Embed": "embed", "EAM-Density": "dens", "EAM-ADP-Dipole": "dipole", "EAM-ADP-Quadrupole": "quadrupole"}
+
+
+def function_definitions(spec):
+    """{harness label: definition text} for every function entry written in the model."""
+    out = {}
+    for s in spec["sections"]:
+        if s["name"] in _LABEL_PREFIX:
+            for k, d in s["entries"]:
+                sp = [x.strip() for x in mg.species_of_key(s["name"], k)]
+                if s["name"] == "EAM-Density" and len(sp) == 2:
+                    lab = "dens:%s->%s" % (sp[0], sp[1])
+                elif len(sp) == 2:
+                    lab = "%s:%s-%s" % (_LABEL_PREFIX[s["name"]], sp[0], sp[1])
+                else:
+                    lab = "%s:%s" % (_LABEL_PREFIX[s["name"]], sp[0])
+                out[lab] = d
+    return out
+
+
+def own_boundaries(spec, label):
+    d = function_definitions(spec).get(label)
+    if not d:
+        return []
+    return sorted(set(float(m.group(1)) for m in _BOUNDARY.finditer(d)))
+
+
 def _eval(tab, spec, op):
     fs = _functions(tab)
     if not fs:
         return {"none": True}
     label, kind, obj = fs[op["fi"] % len(fs)]
+    if op.get("fl"):
+        for cand in fs:
+            if cand[0] == op["fl"]:
+                label, kind, obj = cand
+                break
     meta = spec["meta"]
     if kind == "rho":
         n, cut = meta["nrho"], meta["cutoff_rho"]
@@ -381,7 +431,7 @@ def _eval(tab, spec, op):
     i = op["ri"] % n
     x = (i + op["off"]) * cut / float(n - 1)
     if "bi" in op:
-        bs = range_boundaries(spec)
+        bs = (own_boundaries(spec, label) if op.get("own") else []) or range_boundaries(spec)
         if bs:
             x = bs[op["bi"] % len(bs)] + op.get("eps", 0.0)
     if x < 0:
@@ -586,7 +636,7 @@ def _hashseed_child_main():
 # ----------------------------------------------------------------------------------------------
 
 def eval_key(op):
-    return "%d/%s/%d/%s/%s/%s" % (op["fi"], op["what"], op["ri"], op["off"], op.get("bi"), op.get("eps"))
+    return "%d/%s/%d/%s/%s/%s/%s/%s" % (op["fi"], op["what"], op["ri"], op["off"], op.get("bi"), op.get("eps"), op.get("fl"), op.get("own"))
 
 
 def collect_evals(sc):
@@ -881,6 +931,8 @@ def _probes(sc, refs, res, extra, bump):
                 bump("probe:eval-exactly-at-range-boundary")
     if "other-helper" in sc.get("model_tags", []):
         bump("probe:identical-form-text-other-helper-in-pool")
+    if any(op.get("own") and op.get("eps") == 0.0 for ops in sc["tasks"] for op in ops if op["op"] == "eval"):
+        bump("probe:burst-of-evaluations-on-one-multi-range-function")
     if "same-names-other-formulas" in sc.get("model_tags", []):
         bump("probe:same-form-name-different-formula-in-pool")
     if len(sc["tasks"]) == 1 and False:
